@@ -1,12 +1,224 @@
 import BarterModel.Lemmas.Names
+import BarterModel.Props.C11
 /-! # C11N (sub-check of C11) -/
 namespace BarterModel.Props.C11N
-open BarterModel.Names
+open BarterModel.Names BarterModel.Index
 
-theorem mem_all (e : ExchangeId) : e ∈ ExchangeId.all := by cases e <;> decide
+/-! ## E. the lookup API, for every index the builder can produce -/
 
-theorem asStr_injective (a b : ExchangeId) (h : a.asStr = b.asStr) : a = b := by
-  have : ∀ a ∈ ExchangeId.all, ∀ b ∈ ExchangeId.all, a.asStr = b.asStr → a = b := by decide +kernel
-  exact this a (mem_all a) b (mem_all b) h
+theorem find_exchange_index_ok_iff {defs : List Def} {ii : Indexed} (h : build defs = some ii)
+    (e i : Nat) : findExchangeIndex ii e = .ok i ↔ (exchanges ii)[i]? = some ⟨i, e⟩ := by
+  obtain ⟨h1, _⟩ := build_some defs ii h
+  rw [findExchangeIndex, okOr_ok_iff, Indexed.findExchangeIndex, exchanges, h1,
+    findExchange_iff _ (nodup_sortedExchanges defs), getElem?_enumerate_eq]
+  simp
+
+theorem find_exchange_index_error_iff {defs : List Def} {ii : Indexed} (h : build defs = some ii)
+    (e : Nat) (x : IndexError) :
+    findExchangeIndex ii e = .error x ↔ x = .exchangeIndex ∧ ∀ d ∈ defs, d.exchange ≠ e := by
+  obtain ⟨h1, _⟩ := build_some defs ii h
+  rw [findExchangeIndex, okOr_error_iff, Indexed.findExchangeIndex, h1, findExchange_enumerate,
+    List.findIdx?_eq_none_iff]
+  simp only [decide_eq_false_iff_not, mem_sortedExchanges]
+  constructor
+  · rintro ⟨h2, rfl⟩
+    exact ⟨rfl, fun d hd he => h2 e ⟨d, hd, he⟩ rfl⟩
+  · rintro ⟨rfl, h2⟩
+    exact ⟨fun v ⟨d, hd, he⟩ hv => h2 d hd (he.trans hv), rfl⟩
+
+theorem find_exchange_ok_iff {defs : List Def} {ii : Indexed} (h : build defs = some ii)
+    (i e : Nat) : findExchange ii i = .ok e ↔ (exchanges ii)[i]? = some ⟨i, e⟩ := by
+  obtain ⟨h1, _⟩ := build_some defs ii h
+  rw [findExchange, okOr_ok_iff, findExchange_eq defs ii h, exchanges, h1, getElem?_enumerate_eq]
+  simp
+
+theorem find_exchange_error_iff {defs : List Def} {ii : Indexed} (h : build defs = some ii)
+    (i : Nat) (x : IndexError) :
+    findExchange ii i = .error x ↔ x = .exchangeIndex ∧ (exchanges ii).length ≤ i := by
+  obtain ⟨h1, _⟩ := build_some defs ii h
+  rw [findExchange, okOr_error_iff, findExchange_eq defs ii h, exchanges, h1, length_enumerate,
+    List.getElem?_eq_none_iff]
+  exact And.comm
+
+theorem find_asset_index_ok_iff {defs : List Def} {ii : Indexed} (h : build defs = some ii)
+    (e n i : Nat) :
+    findAssetIndex ii e n = .ok i ↔
+      (∃ x, (assets ii)[i]? = some ⟨i, x⟩ ∧ x.exchange = e ∧ x.asset.nameInternal = n) ∧
+      ∀ j, j < i → ∀ y, (assets ii)[j]? = some y →
+        ¬(y.value.exchange = e ∧ y.value.asset.nameInternal = n) := by
+  obtain ⟨_, h2, _⟩ := build_some defs ii h
+  rw [findAssetIndex, okOr_ok_iff, Indexed.findAssetIndex, assets, h2, findAsset_enumerate,
+    findIdx?_first]
+  constructor
+  · rintro ⟨⟨x, hx, hp⟩, hlt⟩
+    refine ⟨⟨x, (getElem?_enumerate_eq _ _ _).mpr ⟨rfl, hx⟩, by simpa using hp⟩, ?_⟩
+    intro j hj y hy
+    have := hlt j hj y.value ((getElem?_enumerate_eq _ _ _).mp hy).2
+    simpa using this
+  · rintro ⟨⟨x, hx, hp⟩, hlt⟩
+    refine ⟨⟨x, ((getElem?_enumerate_eq _ _ _).mp hx).2, by simpa using hp⟩, ?_⟩
+    intro j hj y hy
+    have := hlt j hj ⟨j, y⟩ ((getElem?_enumerate_eq _ _ _).mpr ⟨rfl, hy⟩)
+    simpa using this
+
+theorem find_asset_index_error_iff {defs : List Def} {ii : Indexed} (h : build defs = some ii)
+    (e n : Nat) (x : IndexError) :
+    findAssetIndex ii e n = .error x ↔
+      x = .assetIndex ∧ ∀ d ∈ defs, d.exchange = e → ∀ a ∈ d.assetRefs, a.nameInternal ≠ n := by
+  obtain ⟨_, h2, _⟩ := build_some defs ii h
+  rw [findAssetIndex, okOr_error_iff, Indexed.findAssetIndex, h2, findAsset_enumerate,
+    List.findIdx?_eq_none_iff]
+  simp only [decide_eq_false_iff_not, mem_sortedAssets, List.mem_flatMap, mem_defAssets]
+  constructor
+  · rintro ⟨h3, rfl⟩
+    exact ⟨rfl, fun d hd he a ha hn => h3 ⟨d.exchange, a⟩ ⟨d, hd, rfl, ha⟩ ⟨he, hn⟩⟩
+  · rintro ⟨rfl, h3⟩
+    exact ⟨fun y ⟨d, hd, hye, hya⟩ ⟨h4, h5⟩ => h3 d hd (hye ▸ h4) _ hya h5, rfl⟩
+
+theorem find_asset_ok_iff {defs : List Def} {ii : Indexed} (h : build defs = some ii)
+    (i : Nat) (x : ExchangeAsset) : findAsset ii i = .ok x ↔ (assets ii)[i]? = some ⟨i, x⟩ := by
+  obtain ⟨_, h2, _⟩ := build_some defs ii h
+  rw [findAsset, okOr_ok_iff, findAsset_eq defs ii h, assets, h2, getElem?_enumerate_eq]
+  simp
+
+theorem find_asset_error_iff {defs : List Def} {ii : Indexed} (h : build defs = some ii)
+    (i : Nat) (x : IndexError) :
+    findAsset ii i = .error x ↔ x = .assetIndex ∧ (assets ii).length ≤ i := by
+  obtain ⟨_, h2, _⟩ := build_some defs ii h
+  rw [findAsset, okOr_error_iff, findAsset_eq defs ii h, assets, h2, length_enumerate,
+    List.getElem?_eq_none_iff]
+  exact And.comm
+
+theorem find_instrument_index_ok_iff {defs : List Def} {ii : Indexed} (h : build defs = some ii)
+    (e n i : Nat) :
+    findInstrumentIndex ii e n = .ok i ↔
+      (∃ x, (instruments ii)[i]? = some ⟨i, x⟩ ∧ x.exchange.value = e ∧ x.nameInternal = n) ∧
+      ∀ j, j < i → ∀ y, (instruments ii)[j]? = some y →
+        ¬(y.value.exchange.value = e ∧ y.value.nameInternal = n) := by
+  rw [findInstrumentIndex, okOr_ok_iff, findInstrumentIndex_eq defs ii h, findIdx?_first, instruments]
+  simp only [List.getElem?_map, Option.map_eq_some_iff, decide_eq_true_eq, decide_eq_false_iff_not]
+  constructor
+  · rintro ⟨⟨x, ⟨y, hy, rfl⟩, hp⟩, hlt⟩
+    obtain ⟨_, _, hk, _⟩ := build_instrument_at defs ii h i y hy
+    refine ⟨⟨y.value, ?_, hp⟩, fun j hj z hz => hlt j hj z.value ⟨z, hz, rfl⟩⟩
+    rw [hy]; congr 1; cases y; simp_all
+  · rintro ⟨⟨x, hx, hp⟩, hlt⟩
+    exact ⟨⟨x, ⟨_, hx, rfl⟩, hp⟩, fun j hj v ⟨z, hz, hv⟩ => hv ▸ hlt j hj z hz⟩
+
+/-- The error of a failed `find_instrument_index` is the **asset** variant. -/
+theorem find_instrument_index_error_iff {defs : List Def} {ii : Indexed} (h : build defs = some ii)
+    (e n : Nat) (x : IndexError) :
+    findInstrumentIndex ii e n = .error x ↔
+      x = .assetIndex ∧ ∀ d ∈ defs, ¬(d.exchange = e ∧ d.nameInternal = n) := by
+  rw [findInstrumentIndex, okOr_error_iff, findInstrumentIndex_eq defs ii h, List.findIdx?_eq_none_iff]
+  simp only [decide_eq_false_iff_not, List.mem_map]
+  constructor
+  · rintro ⟨h3, rfl⟩
+    refine ⟨rfl, fun d hd hp => ?_⟩
+    obtain ⟨k, hk⟩ := List.mem_iff_getElem?.mp ((mem_sortedDefs defs d).mpr hd)
+    obtain ⟨_, _, _, hget⟩ := build_some defs ii h
+    obtain ⟨i, hi, he, _, hn, _⟩ := hget k d hk
+    exact h3 i ⟨⟨k, i⟩, List.mem_of_getElem? hi, rfl⟩ ⟨he.trans hp.1, hn.trans hp.2⟩
+  · rintro ⟨rfl, h3⟩
+    refine ⟨?_, rfl⟩
+    rintro v ⟨y, hy, rfl⟩ hp
+    obtain ⟨k, hk⟩ := List.mem_iff_getElem?.mp hy
+    obtain ⟨d, hd, _, he, _, hn, _⟩ := build_instrument_at defs ii h k y hk
+    exact h3 d ((mem_sortedDefs _ _).mp (List.mem_iff_getElem?.mpr ⟨_, hd⟩)) ⟨he ▸ hp.1, hn ▸ hp.2⟩
+
+theorem find_instrument_ok_iff {defs : List Def} {ii : Indexed} (h : build defs = some ii)
+    (i : Nat) (x : IInstrument) :
+    findInstrument ii i = .ok x ↔ (instruments ii)[i]? = some ⟨i, x⟩ := by
+  rw [findInstrument, okOr_ok_iff, findInstrument_eq defs ii h, instruments]
+  constructor
+  · intro hx
+    simp only [Option.map_eq_some_iff] at hx
+    obtain ⟨y, hy, rfl⟩ := hx
+    obtain ⟨_, _, hk, _⟩ := build_instrument_at defs ii h i y hy
+    rw [hy]; congr 1; cases y; simp_all
+  · intro hx; rw [hx]; rfl
+
+theorem find_instrument_error_iff {defs : List Def} {ii : Indexed} (h : build defs = some ii)
+    (i : Nat) (x : IndexError) :
+    findInstrument ii i = .error x ↔ x = .instrumentIndex ∧ (instruments ii).length ≤ i := by
+  rw [findInstrument, okOr_error_iff, findInstrument_eq defs ii h, instruments]
+  simp only [Option.map_eq_none_iff, List.getElem?_eq_none_iff]
+  exact And.comm
+
+/-- `exchanges()` lists the exchange ids in strictly ascending (declaration) order. -/
+theorem exchanges_sorted {defs : List Def} {ii : Indexed} (h : build defs = some ii) :
+    ((exchanges ii).map (·.value)).Pairwise (· < ·) := by
+  obtain ⟨h1, _⟩ := build_some defs ii h
+  rw [exchanges, h1, map_value_enumerate]
+  refine (strict_sortDedup exchangeKey exchangeKey_inj _).imp ?_
+  intro a b ⟨hle, hne⟩
+  have hle' : [a] ≤ [b] := of_decide_eq_true hle
+  have : a ≤ b := by
+    rcases Nat.lt_or_ge b a with hlt | hge
+    · exact absurd (List.cons_lt_cons_iff.mpr (Or.inl hlt)) (List.not_lt.mpr hle')
+    · exact hge
+  omega
+
+theorem rank_of_sorted (l : List Nat) (hl : l.Pairwise (· < ·)) (i e : Nat) (hi : l[i]? = some e) :
+    (l.filter (· < e)).length = i := by
+  induction l generalizing i with
+  | nil => simp at hi
+  | cons a t ih =>
+    have ⟨h1, h2⟩ := List.pairwise_cons.mp hl
+    cases i with
+    | zero =>
+      simp only [List.getElem?_cons_zero, Option.some.injEq] at hi
+      subst hi
+      rw [List.filter_cons_of_neg (by simp), List.length_eq_zero_iff, List.filter_eq_nil_iff]
+      intro b hb; have := h1 b hb; simp; omega
+    | succ k =>
+      simp only [List.getElem?_cons_succ] at hi
+      have hae : a < e := h1 e (List.mem_of_getElem? hi)
+      rw [List.filter_cons_of_pos (by simpa using hae), List.length_cons, ih h2 k hi]
+
+/-- `find_exchange_index` as a function of the input alone: the rank of the exchange among the
+distinct exchanges of the definitions. -/
+theorem find_exchange_index_is_rank {defs : List Def} {ii : Indexed} (h : build defs = some ii)
+    (e i : Nat) (hf : findExchangeIndex ii e = .ok i) :
+    i = ((specExchanges defs).filter (· < e)).length := by
+  have hs := exchanges_sorted h
+  have hi := (find_exchange_index_ok_iff h e i).mp hf
+  have hv : ((exchanges ii).map (·.value))[i]? = some e := by
+    rw [List.getElem?_map, hi]; rfl
+  rw [← rank_of_sorted _ hs i e hv]
+  exact ((C11.unique_exchanges h).filter _).length_eq
+
+/-- Duplicates: the builder removes only *identical* definitions, so several may share one
+(exchange, name_internal). `find_instrument_index` then answers with the one that is least in the
+derived order of `Instrument` (the next fields compared are name_exchange, underlying, …); the
+others are reachable by position only. -/
+theorem find_instrument_index_least {defs : List Def} {ii : Indexed} (h : build defs = some ii)
+    (e n i : Nat) (hf : findInstrumentIndex ii e n = .ok i) :
+    ∃ d ∈ defs, d.exchange = e ∧ d.nameInternal = n ∧
+      (∃ x, (instruments ii)[i]? = some ⟨i, x⟩ ∧ x.nameExchange = d.nameExchange) ∧
+      ∀ d' ∈ defs, d'.exchange = e → d'.nameInternal = n →
+        Instrument.sortKey d ≤ Instrument.sortKey d' := by
+  obtain ⟨⟨x, hx, hxe, hxn⟩, hfirst⟩ := (find_instrument_index_ok_iff h e n i).mp hf
+  obtain ⟨d, hd, _, he, _, hn, hne, _⟩ := build_instrument_at defs ii h i _ hx
+  have hdm : d ∈ defs := (mem_sortedDefs _ _).mp (List.mem_iff_getElem?.mpr ⟨_, hd⟩)
+  refine ⟨d, hdm, he ▸ hxe, hn ▸ hxn, ⟨x, hx, hne⟩, ?_⟩
+  intro d' hd' he' hn'
+  obtain ⟨k, hk⟩ := List.mem_iff_getElem?.mp ((mem_sortedDefs defs d').mpr hd')
+  obtain ⟨_, _, _, hget⟩ := build_some defs ii h
+  obtain ⟨y, hy, hye, _, hyn, _⟩ := hget k d' hk
+  have hik : i ≤ k := by
+    rcases Nat.lt_or_ge k i with hlt | hge
+    · exact absurd ⟨hye.trans he', hyn.trans hn'⟩ (hfirst k hlt _ hy)
+    · exact hge
+  rcases Nat.lt_or_eq_of_le hik with hlt | heq
+  · have hs := strict_sortDedup Instrument.sortKey Instrument.sortKey_inj defs
+    obtain ⟨hil, hdi⟩ := List.getElem?_eq_some_iff.mp hd
+    obtain ⟨hkl, hdk⟩ := List.getElem?_eq_some_iff.mp hk
+    have := (List.pairwise_iff_getElem.mp hs) i k hil hkl hlt
+    rw [hdi, hdk] at this
+    exact of_decide_eq_true this.1
+  · subst heq
+    rw [hd] at hk; cases hk
+    exact List.le_refl _
 
 end BarterModel.Props.C11N
